@@ -198,6 +198,15 @@ def get_base_info(bases):
                 if param.default is not None and param.kind != Parameter.VAR_KEYWORD:
                     bases_required.append(k)
                 bases_params[k] = param
+            elif (
+                    k not in bases_required
+                    and param.default is not None
+                    and param.kind != Parameter.VAR_KEYWORD
+                    and bases_params[k].kind != Parameter.VAR_KEYWORD
+            ):
+                # a later base requires what an earlier base declares optional: stay strict
+                bases_required.append(k)
+                bases_params[k] = param
         if (
                 "kwargs" in bases_params
                 and bases_params["kwargs"].kind == Parameter.VAR_KEYWORD
